@@ -15,20 +15,20 @@ Lemma pf_refl s : pf s s. Proof. intro id. tauto. Qed.
 Lemma pf_trans a b c : pf a b -> pf b c -> pf a c.
 Proof. intros H1 H2 id. rewrite (H2 id). apply H1. Qed.
 
-Definition pfx (s : node) (r : R node) : Prop := match r with Ret s' => pf s s' | _ => True end.
+Definition ptx (s : node) (r : R node) : Prop := match r with Ret s' => pf s s' | _ => True end.
 
-Lemma pfx_bind s (a : R node) (f : node -> R node) :
-  pfx s a -> (forall s1, pfx s1 (f s1)) -> pfx s (bind a f).
+Lemma ptx_bind s (a : R node) (f : node -> R node) :
+  ptx s a -> (forall s1, ptx s1 (f s1)) -> ptx s (bind a f).
 Proof.
   intros Ha Hf. destruct a as [s1 | c | p]; simpl in *; auto.
   specialize (Hf s1). destruct (f s1); simpl in *; auto. eapply pf_trans; eauto.
 Qed.
 
-Lemma pfx_bind_pure {A} s (a : R A) (f : A -> R node) :
-  (forall x, a = Ret x -> pfx s (f x)) -> pfx s (bind a f).
+Lemma ptx_bind_pure {A} s (a : R A) (f : A -> R node) :
+  (forall x, a = Ret x -> ptx s (f x)) -> ptx s (bind a f).
 Proof. intros Hf. destruct a; simpl in *; auto. Qed.
 
-Lemma pfx_pre s s' r : pf s s' -> pfx s' r -> pfx s r.
+Lemma ptx_pre s s' r : pf s s' -> ptx s' r -> ptx s r.
 Proof. intros H K. destruct r; simpl in *; auto. eapply pf_trans; eauto. Qed.
 
 Ltac pleaf := simpl; unfold pf, peer_ids; simpl; intros; tauto.
@@ -66,95 +66,95 @@ Proof.
 Qed.
 
 (* ---------------------------------------------------------------- handlers that keep the id set *)
-Lemma pfx_do_mut s m : pfx s (do_mut m s).
+Lemma ptx_do_mut s m : ptx s (do_mut m s).
 Proof. unfold do_mut. destruct (negb (n_budget s =? 0) && (n_budget s =? n_cnt s + 1)); simpl; auto. pleaf. Qed.
 
-Lemma pfx_log_append s es : pfx s (log_append s es).
+Lemma ptx_log_append s es : ptx s (log_append s es).
 Proof.
-  unfold log_append. apply pfx_bind; [apply pfx_do_mut|].
+  unfold log_append. apply ptx_bind; [apply ptx_do_mut|].
   intros s1. destruct (snd (mem_append (p_log (n_p s)) es)); simpl; auto using pf_refl.
 Qed.
 
-Lemma pfx_commit_up_to s i : pfx s (commit_up_to s i).
+Lemma ptx_commit_up_to s i : ptx s (commit_up_to s i).
 Proof.
   unfold commit_up_to.
-  match goal with |- pfx s (match ?x with _ => _ end) => destruct x end.
+  match goal with |- ptx s (match ?x with _ => _ end) => destruct x end.
   - destruct (negb (sn_index s0 =? i)); simpl; auto. pleaf.
-  - apply pfx_bind_pure. intros ents _.
-    match goal with |- pfx s (if ?c then _ else _) => destruct c end; [| pleaf].
-    match goal with |- pfx s (match ?x with _ => _ end) => destruct x eqn:E end; simpl; auto.
-    eapply pfx_pre; [| apply pfx_do_mut]. pleaf.
+  - apply ptx_bind_pure. intros ents _.
+    match goal with |- ptx s (if ?c then _ else _) => destruct c end; [| pleaf].
+    match goal with |- ptx s (match ?x with _ => _ end) => destruct x eqn:E end; simpl; auto.
+    eapply ptx_pre; [| apply ptx_do_mut]. pleaf.
 Qed.
 
-Lemma pfx_send_app_ents s p : In (pr_id p) (peer_ids s) -> pfx s (send_app_ents s p).
+Lemma ptx_send_app_ents s p : In (pr_id p) (peer_ids s) -> ptx s (send_app_ents s p).
 Proof.
-  intro Hin. unfold send_app_ents. apply pfx_bind_pure. intros ob _.
+  intro Hin. unfold send_app_ents. apply ptx_bind_pure. intros ob _.
   destruct ob as [b |].
   - simpl. eapply pf_overwrite; [simpl; reflexivity | exact Hin].
   - destruct (p_snap (n_p s)); simpl; auto. destruct (sn_conf s0); simpl; auto.
     eapply pf_overwrite; [simpl; reflexivity | exact Hin].
 Qed.
 
-Lemma pfx_for_peers ids f s :
-  (forall s1 p, In (pr_id p) (peer_ids s1) -> pfx s1 (f s1 p)) -> pfx s (for_peers ids f s).
+Lemma ptx_for_peers ids f s :
+  (forall s1 p, In (pr_id p) (peer_ids s1) -> ptx s1 (f s1 p)) -> ptx s (for_peers ids f s).
 Proof.
   intro Hf. revert s. induction ids as [| id r IH]; intros s; simpl.
   - apply pf_refl.
-  - destruct (peer_get id (l_peers s)) as [p |] eqn:E; auto. apply pfx_bind; auto.
+  - destruct (peer_get id (l_peers s)) as [p |] eqn:E; auto. apply ptx_bind; auto.
     apply Hf. apply peer_get_some in E. destruct E as [E1 E2]. rewrite E1. exact E2.
 Qed.
 
-Lemma pfx_leader_commit_up_to s i : pfx s (leader_commit_up_to s i).
+Lemma ptx_leader_commit_up_to s i : ptx s (leader_commit_up_to s i).
 Proof.
-  unfold leader_commit_up_to. apply pfx_bind; [apply pfx_commit_up_to|]. intros s1.
-  match goal with |- pfx s1 (if ?c then _ else _) => destruct c end; pleaf.
+  unfold leader_commit_up_to. apply ptx_bind; [apply ptx_commit_up_to|]. intros s1.
+  match goal with |- ptx s1 (if ?c then _ else _) => destruct c end; pleaf.
 Qed.
 
-Lemma pfx_leader_maybe_commit s : pfx s (leader_maybe_commit s).
+Lemma ptx_leader_maybe_commit s : ptx s (leader_maybe_commit s).
 Proof.
-  unfold leader_maybe_commit. apply pfx_bind_pure. intros mi _.
+  unfold leader_maybe_commit. apply ptx_bind_pure. intros mi _.
   destruct (n_commit s <? mi); [| pleaf].
-  apply pfx_bind_pure. intros [t ok] _.
+  apply ptx_bind_pure. intros [t ok] _.
   destruct (negb ok); simpl; auto. destruct (negb (t =? p_term (n_p s))); [pleaf|].
-  apply pfx_bind; [apply pfx_leader_commit_up_to|]. intros s1.
-  apply pfx_for_peers. intros s2 p Hp. destruct (pr_match p =? last_index (n_p s2)); [apply pfx_send_app_ents; exact Hp | pleaf].
+  apply ptx_bind; [apply ptx_leader_commit_up_to|]. intros s1.
+  apply ptx_for_peers. intros s2 p Hp. destruct (pr_match p =? last_index (n_p s2)); [apply ptx_send_app_ents; exact Hp | pleaf].
 Qed.
 
-Lemma pfx_tick_leader s : pfx s (tick_leader s).
+Lemma ptx_tick_leader s : ptx s (tick_leader s).
 Proof.
-  unfold tick_leader. apply pfx_bind.
-  - apply pfx_for_peers. intros s2 p Hp. destruct (should_send s2 p); [apply pfx_send_app_ents; exact Hp | pleaf].
+  unfold tick_leader. apply ptx_bind.
+  - apply ptx_for_peers. intros s2 p Hp. destruct (should_send s2 p); [apply ptx_send_app_ents; exact Hp | pleaf].
   - intros s1.
-    match goal with |- pfx s1 (if ?c then _ else _) => destruct c end; [| pleaf].
-    apply pfx_bind_pure. intros ok _. destruct ok; pleaf.
+    match goal with |- ptx s1 (if ?c then _ else _) => destruct c end; [| pleaf].
+    apply ptx_bind_pure. intros ok _. destruct ok; pleaf.
 Qed.
 
-Lemma pfx_handle_app_ents_resp s from su ix hi : pfx s (handle_app_ents_resp s from su ix hi).
+Lemma ptx_handle_app_ents_resp s from su ix hi : ptx s (handle_app_ents_resp s from su ix hi).
 Proof.
   unfold handle_app_ents_resp. destruct (peer_get from (l_peers s)) as [p |] eqn:E; [| pleaf].
   apply peer_get_some in E. destruct E as [E1 E2]. fold (peer_ids s) in E2.
   destruct (ix <? pr_match p); [pleaf|]. destruct (negb su).
-  - eapply pfx_pre; [| apply pfx_send_app_ents].
+  - eapply ptx_pre; [| apply ptx_send_app_ents].
     + eapply pf_overwrite; [simpl; reflexivity | simpl; rewrite E1; exact E2].
     + unfold peer_ids. simpl. apply peer_set_ids. left. reflexivity.
-  - match goal with |- pfx s (if ?c then _ else _) => destruct c end; simpl; auto.
-    match goal with |- pfx s (bind (if _ then send_app_ents ?x ?q else _) _) =>
+  - match goal with |- ptx s (if ?c then _ else _) => destruct c end; simpl; auto.
+    match goal with |- ptx s (bind (if _ then send_app_ents ?x ?q else _) _) =>
       assert (P1 : pf s x) by (eapply pf_overwrite; [simpl; reflexivity | simpl; rewrite E1; exact E2]);
       assert (Q1 : In (pr_id q) (peer_ids x)) by (unfold peer_ids; simpl; apply peer_set_ids; left; reflexivity) end.
-    apply pfx_bind.
-    + match goal with |- pfx s (if ?c then _ else _) => destruct c end.
-      * eapply pfx_pre; [exact P1 | apply pfx_send_app_ents; exact Q1].
+    apply ptx_bind.
+    + match goal with |- ptx s (if ?c then _ else _) => destruct c end.
+      * eapply ptx_pre; [exact P1 | apply ptx_send_app_ents; exact Q1].
       * exact P1.
-    + intros s2. apply pfx_leader_maybe_commit.
+    + intros s2. apply ptx_leader_maybe_commit.
 Qed.
 
-Lemma pfx_leader_propose s es : pfx s (leader_propose s es).
+Lemma ptx_leader_propose s es : ptx s (leader_propose s es).
 Proof.
-  unfold leader_propose. apply pfx_bind; [apply pfx_log_append|]. intros s1.
-  apply pfx_bind.
-  - apply pfx_for_peers. intros s3 p Hp.
-    match goal with |- pfx s3 (if ?c then _ else _) => destruct c end; [apply pfx_send_app_ents; exact Hp | pleaf].
-  - intros s2. destruct (l_peers s2); [apply pfx_leader_maybe_commit | pleaf].
+  unfold leader_propose. apply ptx_bind; [apply ptx_log_append|]. intros s1.
+  apply ptx_bind.
+  - apply ptx_for_peers. intros s3 p Hp.
+    match goal with |- ptx s3 (if ?c then _ else _) => destruct c end; [apply ptx_send_app_ents; exact Hp | pleaf].
+  - intros s2. destruct (l_peers s2); [apply ptx_leader_maybe_commit | pleaf].
 Qed.
 
 (* ---------------------------------------------------------------- enterLeader builds the table from the configuration *)
@@ -176,7 +176,7 @@ Proof.
       assert (H1 : idsR acc1 (fun id => P id \/ id = m)) end.
     { destruct acc as [a | |]; simpl in *; auto.
       match goal with |- idsR (send_app_ents ?a1 ?p) _ =>
-        pose proof (pfx_send_app_ents a1 p) as K; destruct (send_app_ents a1 p) as [a2 | |]; simpl in *; auto end.
+        pose proof (ptx_send_app_ents a1 p) as K; destruct (send_app_ents a1 p) as [a2 | |]; simpl in *; auto end.
       assert (Hin : In m (peer_ids (set_leader a (l_check a) (peer_set (mk_peer m (li + 1) 0 false 0 0) (l_peers a))))).
       { unfold peer_ids. simpl. apply peer_set_ids. left. reflexivity. }
       intro id. rewrite (K Hin id). unfold peer_ids. simpl. rewrite peer_set_ids. simpl.
@@ -197,7 +197,7 @@ Proof.
     rewrite filter_In, negb_true_iff, N.eqb_neq. tauto. }
   intro H. exists c. split; [reflexivity|].
   destruct (l_peers s1) eqn:El.
-  - pose proof (pfx_leader_maybe_commit s1) as K2. rewrite H in K2. simpl in K2. intro id. rewrite (K2 id). apply K1.
+  - pose proof (ptx_leader_maybe_commit s1) as K2. rewrite H in K2. simpl in K2. intro id. rewrite (K2 id). apply K1.
   - inversion H. subst. exact K1.
 Qed.
 
@@ -218,7 +218,8 @@ Qed.
 
 (* ---------------------------------------------------------------- the shape of HandleMsg *)
 Definition lsame (s s1 : node) : Prop :=
-  l_peers s1 = l_peers s /\ n_role s1 = n_role s /\ n_conf s1 = n_conf s /\ n_id s1 = n_id s /\ n_msgs s1 = n_msgs s.
+  l_peers s1 = l_peers s /\ n_role s1 = n_role s /\ n_conf s1 = n_conf s /\ n_id s1 = n_id s /\ n_msgs s1 = n_msgs s /\
+  n_commit s1 = n_commit s.
 
 Lemma handle_msg_shape s m s' :
   n_msgs s = [] -> handle_msg s m = Ret s' ->
@@ -228,15 +229,15 @@ Lemma handle_msg_shape s m s' :
 Proof.
   intros Hm. unfold handle_msg.
   destruct ((negb (m_to m =? 0) && negb (m_to m =? n_id s)) || (negb (m_tog m =? 0) && negb (m_tog m =? p_guid (n_p s)))).
-  { intro H. inversion H. left. unfold lsame. auto. }
+  { intro H. inversion H. left. unfold lsame. repeat split; reflexivity. }
   destruct (negb (guid_get (m_from m) (p_guids (n_p s)) =? 0) && negb (guid_get (m_from m) (p_guids (n_p s)) =? m_fromg m)).
-  { intro H. inversion H. left. unfold lsame. auto. }
+  { intro H. inversion H. left. unfold lsame. repeat split; reflexivity. }
   assert (H1 : forall s1, (if guid_get (m_from m) (p_guids (n_p s)) =? 0 then do_mut (MSetGuid (m_from m) (m_fromg m)) s else Ret s) = Ret s1 ->
                lsame s s1).
   { intros s1. destruct (guid_get (m_from m) (p_guids (n_p s)) =? 0).
     - unfold do_mut. destruct (negb (n_budget s =? 0) && (n_budget s =? n_cnt s + 1)); [discriminate|].
-      intro E. inversion E. unfold lsame. simpl. auto.
-    - intro E. inversion E. subst. unfold lsame. auto. }
+      intro E. inversion E. unfold lsame. simpl. repeat split; reflexivity.
+    - intro E. inversion E. subst. unfold lsame. repeat split; reflexivity. }
   destruct (if guid_get (m_from m) (p_guids (n_p s)) =? 0 then do_mut (MSetGuid (m_from m) (m_fromg m)) s else Ret s) as [s1 | |];
     simpl; try discriminate.
   pose proof (H1 s1 eq_refl) as L1.
@@ -244,7 +245,7 @@ Proof.
   { intro H. inversion H. subst. left. exact L1. }
   destruct (m_term m <? p_term (n_p s1)).
   { intro H. inversion H. subst. left. exact L1. }
-  assert (M1 : n_msgs s1 = []) by (destruct L1 as [_ [_ [_ [_ X]]]]; congruence).
+  assert (M1 : n_msgs s1 = []) by (destruct L1 as [_ [_ [_ [_ [X _]]]]]; congruence).
   destruct (p_term (n_p s1) <? m_term m).
   - assert (H2 : forall s2,
                (match m_body m with
@@ -277,7 +278,7 @@ Proof.
   - assert (P1 : pf s s1) by (destruct L as [L _]; intro id; unfold peer_ids; rewrite L; tauto).
     apply (pf_trans _ _ _ P1). revert Hl. unfold handle_leader. destruct (m_body m).
     + discriminate.
-    + intro X. pose proof (pfx_handle_app_ents_resp s1 (m_from m) success index hint) as K. rewrite X in K. exact K.
+    + intro X. pose proof (ptx_handle_app_ents_resp s1 (m_from m) success index hint) as K. rewrite X in K. exact K.
     + intro X. inversion X. subst. pleaf.
     + intro X. inversion X. subst. apply pf_refl.
     + discriminate.
@@ -348,7 +349,7 @@ Proof.
   destruct (latest_conf_committed s); simpl; [| discriminate].
   cbv zeta.
   match goal with |- bind (leader_propose ?x ?es) _ = _ -> _ =>
-    pose proof (pfx_leader_propose x es) as K; destruct (leader_propose x es) as [s3 | |]; simpl; try discriminate end.
+    pose proof (ptx_leader_propose x es) as K; destruct (leader_propose x es) as [s3 | |]; simpl; try discriminate end.
   intro H. inversion H. subst. simpl in K. intro id. rewrite (K id). unfold peer_ids. simpl.
   rewrite peer_set_ids. simpl. tauto.
 Qed.
@@ -363,8 +364,8 @@ Proof.
   destruct (latest_conf_committed s); simpl; [| discriminate].
   cbv zeta.
   match goal with |- bind (leader_propose ?x ?es) _ = _ -> _ =>
-    pose proof (pfx_leader_propose x es) as K; destruct (leader_propose x es) as [s3 | |]; simpl; try discriminate end.
-  pose proof (pfx_leader_maybe_commit s3) as K2. destruct (leader_maybe_commit s3) as [s4 | |]; simpl; try discriminate.
+    pose proof (ptx_leader_propose x es) as K; destruct (leader_propose x es) as [s3 | |]; simpl; try discriminate end.
+  pose proof (ptx_leader_maybe_commit s3) as K2. destruct (leader_maybe_commit s3) as [s4 | |]; simpl; try discriminate.
   intro H. inversion H. subst. simpl in K, K2. intro id. rewrite (K2 id), (K id). unfold peer_ids. simpl.
   apply peer_del_ids.
 Qed.
@@ -380,11 +381,11 @@ Proof.
   intros P C I H id. rewrite (P id), (H id), I. unfold memb_of. rewrite C. tauto.
 Qed.
 
-Lemma pfx_trim_log s i : pfx s (trim_log s i).
+Lemma ptx_trim_log s i : ptx s (trim_log s i).
 Proof.
   unfold trim_log. destruct (log_first (p_log (n_p s))); [| pleaf]. destruct (log_last (p_log (n_p s))); [| pleaf].
   destruct (i =? n - 1); [pleaf|]. destruct ((i <? n) || (n0 <? i)); simpl; auto.
-  destruct (i - n <? cf_keep (n_cfg s)); [pleaf|]. apply pfx_do_mut.
+  destruct (i - n <? cf_keep (n_cfg s)); [pleaf|]. apply ptx_do_mut.
 Qed.
 
 Lemma run_event_elected s ev st s' :
@@ -432,9 +433,9 @@ Proof.
     intros H HC. inversion H. subst. destruct HC as [HC | [_ [_ [[y [r [X _]]] | [y [X _]]]]]]; try discriminate.
     apply (ids_ok_same s s'); auto.
     revert E. unfold tick. simpl. rewrite Hr. intro E.
-    match type of E with tick_leader ?x = _ => pose proof (pfx_tick_leader x) as K end. rewrite E in K.
+    match type of E with tick_leader ?x = _ => pose proof (ptx_tick_leader x) as K end. rewrite E in K.
     simpl in K. intro id. rewrite (K id). unfold peer_ids. simpl. tauto.
-  - unfold propose. rewrite Hr. pose proof (pfx_leader_propose s es) as K.
+  - unfold propose. rewrite Hr. pose proof (ptx_leader_propose s es) as K.
     destruct (leader_propose s es) as [x | |]; simpl; try discriminate. intros H HC. inversion H. subst.
     destruct HC as [HC | [_ [_ [[y [r [X _]]] | [y [X _]]]]]]; try discriminate.
     apply (ids_ok_same s s'); auto.
@@ -463,9 +464,9 @@ Proof.
     intros H HC. inversion H. subst. apply (ids_ok_same s s'); auto.
     + revert E. unfold snapshot_done.
       match goal with |- (if ?c then _ else _) = _ -> _ => destruct c end; [intro E; inversion E; apply pf_refl|].
-      pose proof (pfx_do_mut s (MSnapCommit m)) as K1.
+      pose proof (ptx_do_mut s (MSnapCommit m)) as K1.
       destruct (do_mut (MSnapCommit m) s) as [s1 | |]; simpl; try discriminate.
-      intro E. pose proof (pfx_trim_log s1 (sn_index m)) as K2. rewrite E in K2. simpl in K1, K2.
+      intro E. pose proof (ptx_trim_log s1 (sn_index m)) as K2. rewrite E in K2. simpl in K1, K2.
       eapply pf_trans; eauto.
     + apply snapshot_done_conf in E. exact E.
   - unfold wrap0. pose proof (new_core_pext (n_id s) (n_cfg s) (n_p s)) as P.
